@@ -2,6 +2,7 @@
 // stop() / destructor join without deadlock for every timing, including stop from one of the pool's own threads.
 #include "common_vrt.h"
 #include <cocls/thread_pool.h>
+#include <atomic>
 #include <memory>
 
 namespace {
@@ -9,8 +10,8 @@ namespace {
 enum Kind { K_COAWAIT = 0, K_RUNFN, K_RUNFN_BIG, K_DETACHED, K_DETACHED_BIG, K_COAWAIT_FUT, K_RUN_ASYNC, K_RESUME_SP, K_NK };
 static const char *kind_names[] = {"coawait", "runfn", "runfnbig", "detached", "detachedbig", "coawaitfut", "runasync", "resumesp"};
 static const char *lost_labels[] = {"lost:coawait", "lost:runfn", "lost:runfnbig", "lost:detached", "lost:detachedbig", "lost:coawait_fut", "lost:run_async", "lost:resume_sp"};
-enum StopMode { ST_STOP = 0, ST_DTOR, ST_SELF, ST_NK };
-static const char *stop_names[] = {"stop", "dtor", "selfstop"};
+enum StopMode { ST_STOP = 0, ST_DTOR, ST_SELF, ST_RACE, ST_NK };
+static const char *stop_names[] = {"stop", "dtor", "selfstop", "racestop"};
 
 // scratch: ran[id], cancelled[id], tid[id], closure_dtor[id]
 enum { S_RAN = 0, S_CANC = 4, S_TID = 8, S_CLOS = 12, S_STOPRET = 16 };
@@ -79,9 +80,35 @@ static void scenario(int nworkers, int njobs, const int *kinds, int stopmode) {
         cocls::promise<int> gate_p[2];
         std::unique_ptr<cocls::future<int>> res[2];
         bool settled_by_future[2] = {false, false};
+        bool settled_early = false;
+        auto settle = [&] {
+        // by now every job must be settled or about to be (a self-detached worker may still be finishing its job)
+        for (int i = 0; i < njobs; i++) {
+            vrt_label(lost_labels[kinds[i]]);
+            if (settled_by_future[i]) {
+                // the returned future reports the value or a broken promise; it must not stay pending
+                while (!res[i]->ready()) vrt_yield();
+                bool has = res[i]->has_value();
+                if (has) {
+                    if (!s[S_RAN + i]) vrt_fail("pool/value-without-run", "future of job %d has a value but the job never ran", i);
+                } else
+                    mark_cancelled(i);
+                if (has && kinds[i] != K_RUN_ASYNC && res[i]->value() != 7) vrt_fail("pool/wrong-value", "run() future holds %d", res[i]->value());
+            } else if (kinds[i] == K_DETACHED || kinds[i] == K_DETACHED_BIG) {
+                // no observer: either it ran or its closure was destroyed un-run; both are visible through the guard
+                while (!s[S_RAN + i] && s[S_CLOS + i] > 0) vrt_yield();
+            } else {
+                while (!s[S_RAN + i] && !s[S_CANC + i]) vrt_yield();
+            }
+            vrt_label("main");
+            VRT_CHECK(s[S_RAN + i] + s[S_CANC + i] <= 1, "pool/ran-and-cancelled", "job %d: ran=%ld cancelled=%ld", i, (long)s[S_RAN + i], (long)s[S_CANC + i]);
+            if (s[S_RAN + i]) VRT_CHECK(s[S_TID + i] >= 1 && s[S_TID + i] <= nworkers, "pool/ran-outside-pool", "job %d ran on thread %ld which is not a pool worker", i, (long)s[S_TID + i]);
+        }
+        };
         {
             auto pool = std::make_unique<cocls::thread_pool>((unsigned)nworkers);
             cocls::thread_pool &P = *pool;
+            auto submit_all = [&] {
             for (int i = 0; i < njobs; i++) {
                 switch (kinds[i]) {
                     case K_COAWAIT: job_coawait(P, i).detach(); break;
@@ -125,6 +152,16 @@ static void scenario(int nworkers, int njobs, const int *kinds, int stopmode) {
                     }
                 }
             }
+            };
+            vstd::thread submitter;
+            if (stopmode == ST_RACE) {
+                // submissions come from another thread and race with stop()
+                submitter = vstd::thread([&] {
+                    vrt_label("submitter");
+                    submit_all();
+                });
+            } else
+                submit_all();
             if (stopmode == ST_SELF) {
                 // a job running on a worker stops the pool it runs in
                 P.run_detached([&P] {
@@ -137,36 +174,25 @@ static void scenario(int nworkers, int njobs, const int *kinds, int stopmode) {
                 vrt_label("main-wait-selfstop");
                 while (!s[S_STOPRET]) vrt_yield();
             }
-            if (stopmode == ST_STOP) {
+            if (stopmode == ST_STOP || stopmode == ST_RACE) {
                 vrt_label("main-stop");
                 P.stop();
                 s[S_STOPRET]++;
             }
+            if (stopmode == ST_RACE) {
+                vrt_label("main-join-submitter");
+                submitter.join();
+            }
+            if (stopmode == ST_STOP || stopmode == ST_RACE) {
+                // stop() has returned and nobody submits any more: every submission must be settled now, not only
+                // when the pool object is eventually destroyed
+                settle();
+                settled_early = true;
+            }
             vrt_label("main-destroy-pool");
         }  // ~thread_pool
         vrt_label("main");
-        // by now every job must be settled or about to be (a self-detached worker may still be finishing its job)
-        for (int i = 0; i < njobs; i++) {
-            vrt_label(lost_labels[kinds[i]]);
-            if (settled_by_future[i]) {
-                // the returned future reports the value or a broken promise; it must not stay pending
-                while (!res[i]->ready()) vrt_yield();
-                bool has = res[i]->has_value();
-                if (has) {
-                    if (!s[S_RAN + i]) vrt_fail("pool/value-without-run", "future of job %d has a value but the job never ran", i);
-                } else
-                    mark_cancelled(i);
-                if (has && kinds[i] != K_RUN_ASYNC && res[i]->value() != 7) vrt_fail("pool/wrong-value", "run() future holds %d", res[i]->value());
-            } else if (kinds[i] == K_DETACHED || kinds[i] == K_DETACHED_BIG) {
-                // no observer: either it ran or its closure was destroyed un-run; both are visible through the guard
-                while (!s[S_RAN + i] && s[S_CLOS + i] > 0) vrt_yield();
-            } else {
-                while (!s[S_RAN + i] && !s[S_CANC + i]) vrt_yield();
-            }
-            vrt_label("main");
-            VRT_CHECK(s[S_RAN + i] + s[S_CANC + i] <= 1, "pool/ran-and-cancelled", "job %d: ran=%ld cancelled=%ld", i, (long)s[S_RAN + i], (long)s[S_CANC + i]);
-            if (s[S_RAN + i]) VRT_CHECK(s[S_TID + i] >= 1 && s[S_TID + i] <= nworkers, "pool/ran-outside-pool", "job %d ran on thread %ld which is not a pool worker", i, (long)s[S_TID + i]);
-        }
+        if (!settled_early) settle();
         // closures must all be gone once their job is settled (wait for a detached worker still unwinding)
         for (int i = 0; i < njobs; i++) {
             vrt_label("main-wait-closures");
@@ -184,7 +210,40 @@ static void scenario(int nworkers, int njobs, const int *kinds, int stopmode) {
     }
 }
 
+// two jobs where the first waits for the second: legal on a pool with two or more workers; a submission that does not
+// wake an idle worker leaves the second job forgotten while its waiter hangs
+static void dependent_scenario(int nworkers, int first_kind) {
+    int64_t *s = vrt_scratch();
+    {
+        std::atomic<int> flag{0};
+        auto pool = std::make_unique<cocls::thread_pool>((unsigned)nworkers);
+        cocls::thread_pool &P = *pool;
+        auto waitjob = [&flag] {
+            vrt_label("job-waiting-for-second-job");
+            while (!flag.load()) vrt_yield();
+            mark_ran(0);
+        };
+        std::unique_ptr<cocls::future<void>> f;
+        if (first_kind == 0)
+            P.run_detached(waitjob);
+        else
+            f.reset(new cocls::future<void>(P.run(waitjob)));
+        P.run_detached([&flag] {
+            mark_ran(1);
+            flag.store(1);
+        });
+        vrt_label("main-wait-jobs");
+        while (!s[S_RAN] || !s[S_RAN + 1]) vrt_yield();
+        if (f) f->sync();
+        vrt_label("main");
+        pool.reset();
+        vrt_outcome("t0=%ld t1=%ld", (long)s[S_TID], (long)s[S_TID + 1]);
+    }
+}
+
 VRT_REGISTER(reg_pool) {
+    for (int w = 2; w <= 3; w++)
+        for (int k = 0; k < 2; k++) vrt::add("pool_w" + std::to_string(w) + "_dependent_" + (k ? "run" : "detached"), [=] { dependent_scenario(w, k); });
     for (int w = 1; w <= 3; w++)
         for (int st = 0; st < ST_NK; st++) {
             for (int a = 0; a < K_NK; a++) {
